@@ -452,7 +452,10 @@ def derive(rng, a, mode):
             r = rng.random()
             if r < 0.3 and hi - lo <= 6:
                 vals = list(range(lo, hi + 1))
-                if rng.random() < 0.4 and vals:
+                q = rng.random()
+                if q < 0.3 and len(vals) > 2:
+                    vals.remove(rng.choice(vals[1:-1]))          # a hole strictly inside, both limits members
+                elif q < 0.5 and vals:
                     vals.remove(rng.choice(vals))
                 vals += rng.sample([v for v in gen.ENUM_VALUES if v not in range(lo, hi + 1)], rng.choice([0, 1]))
                 vals = sorted(set(vals)) or [0]
@@ -617,6 +620,60 @@ def gen_pair(rng, maxdepth):
         mode = rng.choice(['wider', 'wider', 'equal', 'narrower', 'shifted', 'cross', 'cross'])
         b = derive(rng, a, mode)
     return a, b, mode
+
+
+def int_enum_pairs():
+    """systematic configuration class: integer ranges against enums / booleans — enum equal to the range, with a hole strictly
+    inside (each position), missing exactly the lower / the upper limit, with values only outside, a superset; booleans against
+    [0,1], [0,2], [-1,1], [1,1], [0,0]; each also inside an array, a tuple and a struct"""
+    names = gen.ENUM_NAMES
+
+    def enum(vals):
+        vals = sorted(set(vals))
+        return {'t': 'enum', 'members': [[names[i % len(names)] + ('' if i < len(names) else str(i)), v] for i, v in enumerate(vals)]}
+    pairs = []
+    for lo in (-1, 0, 1, 5):
+        for width in (0, 1, 2, 3, 4):
+            hi = lo + width
+            a = {'t': 'int', 'min': lo, 'max': hi}
+            rng_vals = list(range(lo, hi + 1))
+            configs = [rng_vals, rng_vals + [hi + 1], [lo - 2] + rng_vals + [hi + 3], rng_vals[1:], rng_vals[:-1],
+                       [lo - 2, hi + 2], [lo - 1] + rng_vals[1:], rng_vals[:-1] + [hi + 1]]
+            for hole in rng_vals[1:-1]:
+                configs.append([v for v in rng_vals if v != hole])
+                configs.append([lo - 1] + [v for v in rng_vals if v != hole] + [hi + 1])
+            for vals in configs:
+                if vals:
+                    pairs.append((a, enum(vals)))
+    for lo, hi in ((0, 1), (0, 2), (-1, 1), (1, 1), (0, 0), (1, 2), (-1, 0)):
+        pairs.append(({'t': 'int', 'min': lo, 'max': hi}, {'t': 'bool'}))
+    nested = []
+    for i, (a, b) in enumerate(pairs):
+        k = i % 4
+        if k == 1:
+            nested.append(({'t': 'array', 'elem': a, 'min': 0, 'max': 3}, {'t': 'array', 'elem': b, 'min': 0, 'max': 3}))
+        elif k == 2:
+            nested.append(({'t': 'tuple', 'elems': [{'t': 'bool'}, a]}, {'t': 'tuple', 'elems': [{'t': 'bool'}, b]}))
+        elif k == 3:
+            nested.append(({'t': 'struct', 'members': [['a', a]], 'optional': [], 'client': False},
+                           {'t': 'struct', 'members': [['a', b]], 'optional': [], 'client': False}))
+    return pairs + nested
+
+
+def all_small_ints(a_plain):
+    """every value of the small integer ranges inside a plain tree, as witnesses (one witness per integer at the first int leaf)"""
+    t = a_plain['t']
+    if t == 'int' and a_plain['max'] - a_plain['min'] <= 8:
+        return list(range(a_plain['min'], a_plain['max'] + 1))
+    if t == 'array' and a_plain['max'] >= 1:
+        n = max(a_plain['min'], 1)
+        return [(v,) * n for v in all_small_ints(a_plain['elem'])]
+    if t == 'tuple' and a_plain['elems'][0]['t'] == 'bool' and len(a_plain['elems']) == 2:
+        return [(False, v) for v in all_small_ints(a_plain['elems'][1])]
+    if t == 'struct' and len(a_plain['members']) == 1:
+        k, m = a_plain['members'][0]
+        return [{k: v} for v in all_small_ints(m)]
+    return []
 
 
 def gen_witnesses(rng, a_plain, n):
@@ -804,7 +861,7 @@ def shrink(ctx, case, clause):
                 if sc['k'] == 'compat':
                     import random
                     rng = random.Random(0)
-                    sc['witnesses'] = [dtcodec.py_to_json(v) for v in gen_witnesses(rng, sc['a'], 12)]
+                    sc['witnesses'] = [dtcodec.py_to_json(v) for v in gen_witnesses(rng, sc['a'], 12) + all_small_ints(sc['a'])]
                 else:
                     import random
                     rng = random.Random(0)
@@ -865,6 +922,9 @@ def run(ctx):
                 cases.append(({'k': 'get', 'datainfo': md, 'what': what}, 'get:' + what))
             except Exception as e:
                 res.count('datainfo.mutation-failed:' + type(e).__name__)
+    for a, b in int_enum_pairs():
+        ws = [dtcodec.py_to_json(v) for v in all_small_ints(a)]
+        cases.append(({'k': 'compat', 'a': a, 'b': b, 'witnesses': ws, 'mode': 'int-enum'}, 'pair:int-enum(systematic)'))
     for i in range(npairs):
         a, b, mode = gen_pair(rng, 2 if not big else 3)
         try:
@@ -873,7 +933,7 @@ def run(ctx):
         except Exception as e:
             res.count('pair.refused:' + type(e).__name__)
             continue
-        ws = [dtcodec.py_to_json(v) for v in gen_witnesses(rng, a, 8)]
+        ws = [dtcodec.py_to_json(v) for v in gen_witnesses(rng, a, 8) + all_small_ints(a)]
         cases.append(({'k': 'compat', 'a': a, 'b': b, 'witnesses': ws, 'mode': mode}, 'pair:' + mode))
 
     CH = 20000
